@@ -744,20 +744,58 @@ Proof.
     rewrite E. cbn [negb]. apply IH; [lia|assumption|assumption].
 Qed.
 
-(** recorded ranges that can be read from the image, and not more of them than the
-    measurement handed to the explainer has references *)
+(** recorded ranges that can be read from the image, and reference look-ups of
+    rangesToChunks that stay inside the reference list of the measurement handed to the
+    explainer *)
 Definition range_readable (isz : Z) (r : Z * Z) : Prop :=
   chunk_readable isz (ChImage (is_phys_addr (fst r) isz) (fst r) (snd r)) = true.
+
+(** a (offset, length) pair with a length: it always makes a chunk *)
+Definition nonempty (r : Z * Z) : bool := 0 <? snd r.
+
+Definition has_raw (refs : list ref) : bool := existsb (fun rf => rf_kind rf =? REF_RAW) refs.
+
+(** can the pair make a chunk?  A pair with a length does; an empty one only when the
+    reference it looks up is a hard-coded value (possible only if there is one at all) *)
+Definition counts (refs : list ref) (r : Z * Z) : bool := nonempty r || has_raw refs.
+
+(** every pair of the list is read after fewer chunk-making pairs than there are
+    references: the look-up [References[len(chunks)]] made for it is in bounds.  Pairs
+    that make no chunk do not count: the list may well be longer than the reference list. *)
+Definition index_safe (refs : list ref) (ranges : list (Z * Z)) : Prop :=
+  forall pre r post, ranges = pre ++ r :: post ->
+    (length (filter (counts refs) pre) < length refs)%nat.
+
+Lemma filter_length_le' : forall {A} (f : A -> bool) (l : list A), (length (filter f l) <= length l)%nat.
+Proof. intros A f. induction l as [|x l IH]; cbn [filter length]; [lia|]. destruct (f x); cbn [length]; lia. Qed.
+
+Lemma index_safe_of_length : forall refs ranges,
+  (length ranges <= length refs)%nat -> index_safe refs ranges.
+Proof.
+  intros refs ranges L pre r post E. subst ranges. rewrite app_length in L. cbn [length] in L.
+  pose proof (filter_length_le' (counts refs) pre). lia.
+Qed.
 
 Definition ranges_safe (isz : Z) (m : option meas) (e : event) : Prop :=
   forall p, parse_event_data e isz = Ok p ->
     Forall (range_readable isz) (pr_ranges p) /\
-    match m with Some mm => (length (pr_ranges p) <= length (m_refs mm))%nat | None => True end.
+    match m with Some mm => index_safe (m_refs mm) (pr_ranges p) | None => True end.
+
+Lemma has_raw_of_nth : forall refs k rf,
+  nth_error refs k = Some rf -> (rf_kind rf =? REF_RAW) = true -> has_raw refs = true.
+Proof.
+  intros refs k rf N K. unfold has_raw. apply existsb_exists. exists rf.
+  split; [eapply nth_error_In; exact N|exact K].
+Qed.
 
 Lemma ranges_to_chunks_ok : forall isz m ranges chunks,
   Forall (range_readable isz) ranges ->
   forallb (chunk_readable isz) chunks = true ->
-  match m with Some mm => (length chunks + length ranges <= length (m_refs mm))%nat | None => True end ->
+  match m with
+  | Some mm => forall pre r post, ranges = pre ++ r :: post ->
+                 (length chunks + length (filter (counts (m_refs mm)) pre) < length (m_refs mm))%nat
+  | None => True
+  end ->
   exists ch, ranges_to_chunks isz m ranges chunks = Ok ch /\ forallb (chunk_readable isz) ch = true.
 Proof.
   intros isz m. induction ranges as [|[off len] t IH]; intros chunks Fr Fc Hl; cbn [ranges_to_chunks].
@@ -769,20 +807,39 @@ Proof.
                          | None => Panic
                          | Some r => Ok (rf_kind r =? REF_RAW)
                          end
-            end) = Ok raw).
-    { destruct m as [mm|]; [|eexists; reflexivity].
-      destruct (nth_error (m_refs mm) (length chunks)) eqn:N; [eexists; reflexivity|].
-      apply nth_error_None in N. cbn [length] in Hl. lia. }
-    destruct Hraw as [raw Hraw]. rewrite Hraw. cbn [bind].
-    destruct (0 <? len).
+            end) = Ok raw /\
+            (raw = true -> match m with Some mm => has_raw (m_refs mm) = true | None => False end)).
+    { destruct m as [mm|]; [|exists false; split; [reflexivity|discriminate]].
+      destruct (nth_error (m_refs mm) (length chunks)) as [rf|] eqn:N.
+      - eexists. split; [reflexivity|]. intro K. eapply has_raw_of_nth; eassumption.
+      - exfalso. apply nth_error_None in N.
+        specialize (Hl [] (off, len) t eq_refl). cbn [filter length] in Hl. lia. }
+    destruct Hraw as [raw [Hraw Hr]]. rewrite Hraw. cbn [bind].
+    (* the tail's look-ups, given by how many chunks this pair added at most *)
+    assert (Htail : forall n, (n <= (if counts (match m with Some mm => m_refs mm | None => [] end) (off, len) then 1 else 0))%nat ->
+              match m with
+              | Some mm => forall pre r post, t = pre ++ r :: post ->
+                  (length chunks + n + length (filter (counts (m_refs mm)) pre) < length (m_refs mm))%nat
+              | None => True
+              end).
+    { intros n Hn. destruct m as [mm|]; [|exact I]. intros pre r post E.
+      specialize (Hl ((off, len) :: pre) r post). cbn [app] in Hl. rewrite E in Hl. specialize (Hl eq_refl).
+      cbn [filter] in Hl. destruct (counts (m_refs mm) (off, len)); cbn [length] in Hl; lia. }
+    destruct (0 <? len) eqn:Hlen.
     + apply IH; [exact Fr'| |].
       * rewrite forallb_app, Fc. cbn [forallb andb]. rewrite R. reflexivity.
-      * destruct m; [|exact I]. rewrite app_length. cbn [length] in *. lia.
+      * specialize (Htail 1%nat). destruct m as [mm|]; [|exact I].
+        intros pre r post E. rewrite app_length. cbn [length].
+        refine (Htail _ pre r post E). unfold counts, nonempty. cbn [snd]. rewrite Hlen. cbn [orb]. lia.
     + destruct raw.
       * apply IH; [exact Fr'| |].
         -- rewrite forallb_app, Fc. reflexivity.
-        -- destruct m; [|exact I]. rewrite app_length. cbn [length] in *. lia.
-      * apply IH; [exact Fr'|exact Fc|]. destruct m; [|exact I]. cbn [length] in *. lia.
+        -- specialize (Htail 1%nat). destruct m as [mm|]; [|exact I].
+           intros pre r post E. rewrite app_length. cbn [length].
+           refine (Htail _ pre r post E). unfold counts. rewrite (Hr eq_refl). rewrite orb_true_r. lia.
+      * apply IH; [exact Fr'|exact Fc|].
+        specialize (Htail 0%nat). destruct m as [mm|]; [|exact I].
+        intros pre r post E. specialize (Htail ltac:(lia) pre r post E). lia.
 Qed.
 
 Lemma explain_safe : forall isz m e, ranges_safe isz m e -> explain isz m e <> Panic.
@@ -792,8 +849,54 @@ Proof.
   destruct (parse_event_data e isz) as [p| | |] eqn:Ep; try discriminate; try congruence.
   destruct (Hs p Ep) as [Fr Hl].
   destruct (ranges_to_chunks_ok isz m (pr_ranges p) [] Fr eq_refl) as [ch [E F]].
-  - destruct m; [cbn [length]; lia|exact I].
+  - destruct m as [mm|]; [|exact I]. intros pre r post Eq. cbn [length]. exact (Hl pre r post Eq).
   - rewrite E. cbn [bind]. rewrite F. discriminate.
+Qed.
+
+(** EXACT for a measurement without hard-coded references (image ranges only, as the
+    firmware-volume measurements are): the look-up panics iff some pair of the list comes
+    after at least as many NON-EMPTY pairs as there are references. *)
+Lemma ranges_to_chunks_panic_iff_gen : forall isz mm,
+  has_raw (m_refs mm) = false ->
+  forall ranges chunks,
+  (ranges_to_chunks isz (Some mm) ranges chunks = Panic <->
+   exists pre r post, ranges = pre ++ r :: post /\
+     (length (m_refs mm) <= length chunks + length (filter nonempty pre))%nat).
+Proof.
+  intros isz mm NR. induction ranges as [|[off len] t IH]; intro chunks; cbn [ranges_to_chunks].
+  - split; [discriminate|]. intros [pre [r [post [E _]]]]. destruct pre; discriminate.
+  - destruct (nth_error (m_refs mm) (length chunks)) as [rf|] eqn:N.
+    + assert (Kraw : (rf_kind rf =? REF_RAW) = false).
+      { destruct (rf_kind rf =? REF_RAW) eqn:K; [|reflexivity].
+        rewrite (has_raw_of_nth _ _ _ N K) in NR. discriminate. }
+      rewrite Kraw. cbn [bind].
+      assert (Hlt : (length chunks < length (m_refs mm))%nat) by (apply nth_error_Some; congruence).
+      destruct (0 <? len) eqn:Hlen.
+      * rewrite IH. rewrite app_length. cbn [length]. split.
+        -- intros [pre [r [post [E L]]]]. exists ((off, len) :: pre), r, post. split; [rewrite E; reflexivity|].
+           cbn [filter]. unfold nonempty at 1. cbn [snd]. rewrite Hlen. cbn [length]. lia.
+        -- intros [pre [r [post [E L]]]]. destruct pre as [|x pre].
+           ++ cbn [filter length] in L. lia.
+           ++ cbn [app] in E. inversion E; subst. exists pre, r, post. split; [reflexivity|].
+              cbn [filter] in L. unfold nonempty at 1 in L. cbn [snd] in L. rewrite Hlen in L. cbn [length] in L. lia.
+      * rewrite IH. split.
+        -- intros [pre [r [post [E L]]]]. exists ((off, len) :: pre), r, post. split; [rewrite E; reflexivity|].
+           cbn [filter]. unfold nonempty at 1. cbn [snd]. rewrite Hlen. exact L.
+        -- intros [pre [r [post [E L]]]]. destruct pre as [|x pre].
+           ++ cbn [filter length] in L. lia.
+           ++ cbn [app] in E. inversion E; subst. exists pre, r, post. split; [reflexivity|].
+              cbn [filter] in L. unfold nonempty at 1 in L. cbn [snd] in L. rewrite Hlen in L. exact L.
+    + cbn [bind]. split; [intros _|reflexivity].
+      exists [], (off, len), t. split; [reflexivity|]. apply nth_error_None in N. cbn [filter length]. lia.
+Qed.
+
+Theorem ranges_to_chunks_panic_iff : forall isz mm ranges,
+  has_raw (m_refs mm) = false ->
+  (ranges_to_chunks isz (Some mm) ranges [] = Panic <->
+   exists pre r post, ranges = pre ++ r :: post /\
+     (length (m_refs mm) <= length (filter nonempty pre))%nat).
+Proof.
+  intros isz mm ranges NR. rewrite (ranges_to_chunks_panic_iff_gen isz mm NR ranges []). cbn [length]. reflexivity.
 Qed.
 
 Section NoPanic.
@@ -1059,6 +1162,41 @@ Lemma witness_one_pair_ok :
   exists rs, reproduce w_hp 4 w_isz false w_cmds w_evlog (Some w_log_one) 4 w_st ([false], [false])
              = Ok (rs, [IMismatch 0], None) /\ map re_status rs = [StMismatch].
 Proof. eexists. vm_compute. split; reflexivity. Qed.
+
+(** EMPTY pairs (length 0) make no chunk over an image reference and are not counted: the
+    same entry with the data [16 bytes at 0xFFFF0000][0 bytes at 0xFFFF1000][0 bytes at
+    0xFFFF1000] - THREE pairs for ONE reference, the empty ones read first - is a plain
+    mismatch ... *)
+Definition w_empty_pair : list Z := [0;0;0;0;0;0;0;0; 0;16;255;255;0;0;0;0].
+Definition w_log_real_empty_empty : list event :=
+  [mkEv 0 EV_POST_CODE (w_one_pair ++ w_empty_pair ++ w_empty_pair) (Some (mkDg 4 (w_dg 2)))].
+Lemma witness_empty_pairs_ok :
+  exists rs, reproduce w_hp 4 w_isz false w_cmds w_evlog (Some w_log_real_empty_empty) 4 w_st ([false], [false])
+             = Ok (rs, [IMismatch 0], None) /\ map re_status rs = [StMismatch].
+Proof. eexists. vm_compute. split; reflexivity. Qed.
+
+(** ... its ranges are safe in the sense of the no-panic theorem although there are more
+    of them than references ... *)
+Lemma witness_empty_pairs_safe :
+  forall p, parse_event_data (mkEv 0 EV_POST_CODE (w_one_pair ++ w_empty_pair ++ w_empty_pair) (Some (mkDg 4 (w_dg 2)))) w_isz = Ok p ->
+    (length (pr_ranges p) > length (m_refs w_meas))%nat /\
+    index_safe (m_refs w_meas) (pr_ranges p) /\ Forall (range_readable w_isz) (pr_ranges p).
+Proof.
+  intros p E. vm_compute in E. inversion E; subst p; clear E. cbn [pr_ranges].
+  split; [cbn; lia|]. split.
+  - intros pre r post Eq. cbn [m_refs w_meas length].
+    destruct pre as [|a [|b [|c pre]]]; cbn [app] in Eq; inversion Eq; subst; cbn; try lia.
+    destruct pre; discriminate.
+  - repeat constructor.
+Qed.
+
+(** ... but with the empty pair stored FIRST (so that it is read after the real one) the
+    look-up for it is already out of bounds: References[1] of 1. *)
+Definition w_log_empty_real : list event :=
+  [mkEv 0 EV_POST_CODE (w_empty_pair ++ w_one_pair) (Some (mkDg 4 (w_dg 2)))].
+Lemma witness_empty_after_real :
+  reproduce w_hp 4 w_isz false w_cmds w_evlog (Some w_log_empty_real) 4 w_st ([false], [false]) = Panic.
+Proof. vm_compute. reflexivity. Qed.
 
 (** nil measurement: a startup-locality entry (EventLogAdd without Extend) whose recorded
     digest differs, TXT registers present *)
